@@ -831,3 +831,13 @@ func ExitGuarded(fn *ssa.Function, e Exit, pred func(Fact) bool) bool {
 	}
 	return false
 }
+
+// ArgsWithRecv returns the arguments of a call with the receiver in position 0 also for a call through an
+// interface (where go/ssa keeps the receiver apart), so that positions agree with the static form of the same call.
+func ArgsWithRecv(c ssa.CallInstruction) []ssa.Value {
+	cc := c.Common()
+	if !cc.IsInvoke() {
+		return cc.Args
+	}
+	return append([]ssa.Value{cc.Value}, cc.Args...)
+}
